@@ -1,26 +1,82 @@
 mod analysis;
+mod check;
 mod dispatch;
 mod exec;
 mod monitors;
+mod profiles;
 mod program;
 mod trace;
 mod types;
 
 use std::collections::BTreeMap;
 use std::sync::Arc;
+use std::time::Duration;
+
+fn arg(args: &[String], name: &str) -> Option<String> {
+    args.iter().position(|a| a == name).and_then(|i| args.get(i + 1)).cloned()
+}
 
 fn main() {
     std::panic::set_hook(Box::new(|_| {}));
     let args: Vec<String> = std::env::args().collect();
-    let seed: u64 = args.get(1).and_then(|s| s.parse().ok()).unwrap_or(1);
-    let n: u64 = args.get(2).and_then(|s| s.parse().ok()).unwrap_or(1);
-    let show: Option<&str> = args.get(3).map(|s| s.as_str());
-    let p = program::Profile::base("base");
+    match args.get(1).map(|s| s.as_str()) {
+        Some("check") => {
+            let prop = arg(&args, "--prop").expect("--prop");
+            let tier = arg(&args, "--tier").unwrap_or("quick".into());
+            let seed: u64 = arg(&args, "--seed").and_then(|s| s.parse().ok()).unwrap_or(1);
+            let (n, cap) = check::tier_budget(&prop, &tier);
+            let cfg = check::Config {
+                prop: prop.clone(),
+                tier: tier.clone(),
+                seed,
+                out: arg(&args, "--out").unwrap_or(format!("/verif/evidence/{prop}.json")),
+                replay_dir: arg(&args, "--replay-dir").unwrap_or("/verif/replays".into()),
+                known: arg(&args, "--known").unwrap_or("/verif/known_findings.json".into()),
+                threads: arg(&args, "--threads").and_then(|s| s.parse().ok()).unwrap_or(16),
+                random_programs: arg(&args, "--programs").and_then(|s| s.parse().ok()).unwrap_or(n),
+                wall_cap: arg(&args, "--wall").and_then(|s| s.parse().ok()).map(Duration::from_secs).unwrap_or(cap),
+                cross_every: 10,
+            };
+            let o = check::run_check(&cfg);
+            if o.new_violations > 0 {
+                std::process::exit(1);
+            }
+            if o.inconclusive.is_some() {
+                std::process::exit(2);
+            }
+        }
+        Some("replay") => {
+            let hit = check::replay(&args[2]);
+            std::process::exit(if hit { 1 } else { 0 });
+        }
+        Some("survey") => survey(&args[2..]),
+        _ => {
+            eprintln!("usage: cobweb_verif check --prop Cxx --tier quick|thorough --seed N | replay FILE | survey SEED N [SIG [dump]] [--prop Cxx]");
+            std::process::exit(2);
+        }
+    }
+}
+
+/// Development aid: run all monitors on random programs and print a histogram of violation signatures.
+fn survey(args: &[String]) {
+    let seed: u64 = args.first().and_then(|s| s.parse().ok()).unwrap_or(1);
+    let n: u64 = args.get(1).and_then(|s| s.parse().ok()).unwrap_or(1);
+    let show: Option<&str> = args.get(2).map(|s| s.as_str()).filter(|s| !s.starts_with("--"));
+    let dump = args.get(3).map(|s| !s.starts_with("--")).unwrap_or(false);
+    let prop = arg(args, "--prop");
+    let directed = args.iter().any(|a| a == "--directed");
+    let p = prop.as_deref().map(profiles::profile_for).unwrap_or(program::Profile::base("base"));
     let t0 = std::time::Instant::now();
-    let mut hist: BTreeMap<String, (u64, u64)> = BTreeMap::new();
+    let mut hist: BTreeMap<String, (u64, String)> = BTreeMap::new();
     let mut bad = 0;
-    for s in seed..seed + n {
-        let prog = Arc::new(program::gen_program(s, &p));
+    let programs: Vec<program::Program> = if directed {
+        profiles::directed_for(prop.as_deref().unwrap_or("C01"), true)
+    } else {
+        (seed..seed + n).map(|s| program::gen_program(s, &p)).collect()
+    };
+    let total = programs.len();
+    for prog in programs {
+        let prog = Arc::new(prog);
         let ex = exec::execute(&prog);
         let a = analysis::analyze(&prog, &ex.trace);
         let cx = monitors::Ctx { a: &a, dels: dispatch::deliveries(&a) };
@@ -30,13 +86,15 @@ fn main() {
             let (vs, _cov) = monitors::run_monitor(prop, &cx);
             for v in vs.iter() {
                 any = true;
-                let e = hist.entry(v.sig.clone()).or_insert((0, s));
+                let e = hist.entry(v.sig.clone()).or_insert((0, prog.name.clone()));
                 e.0 += 1;
                 if show.map(|x| v.sig.starts_with(x)).unwrap_or(false) && !shown {
                     shown = true;
-                    println!("=== seed {s}: {} @{}: {}", v.sig, v.pos, v.msg);
-                    if args.get(4).is_some() {
-                        dump_regs(&a);
+                    println!("=== {}: {} @{}: {}", prog.name, v.sig, v.pos, v.msg);
+                    if dump {
+                        for r in a.regs.iter() {
+                            println!("REG {:?}", r);
+                        }
                         println!("{}", serde_json::to_string(&*prog).unwrap());
                         for (i, e) in ex.trace.iter().enumerate() {
                             let s = format!("{:?}", e);
@@ -47,17 +105,12 @@ fn main() {
                 }
             }
         }
-        if any { bad += 1; }
+        if any {
+            bad += 1;
+        }
     }
     for (k, (c, s)) in hist.iter() {
-        println!("{c:8} first-seed={s:<8} {k}");
+        println!("{c:8} first={s:<40} {k}");
     }
-    println!("programs={n} flagged={bad} wall={:?}", t0.elapsed());
-}
-
-#[allow(dead_code)]
-pub fn dump_regs(a: &analysis::Analysis) {
-    for r in a.regs.iter() {
-        println!("REG {:?}", r);
-    }
+    println!("programs={total} flagged={bad} wall={:?}", t0.elapsed());
 }
